@@ -21,6 +21,7 @@ import json
 import os
 import random
 import re
+import signal
 import subprocess
 import sys
 import threading
@@ -288,6 +289,61 @@ class _Impl:
         return cls.inst
 
 
+class _Watchdog(Exception):
+    pass
+
+
+def _alarm(signum: int, frame: T.Any) -> None:
+    raise _Watchdog('the call did not return within %d s' % WATCHDOG_S)
+
+
+WATCHDOG_S = 60
+# exception types that are never input validation: a rejection produced by one of them (directly, or converted into a
+# MesonException by a blanket handler - visible as the exception's __context__) is an unhandled Python exception
+INTERNAL = (AttributeError, TypeError, KeyError, IndexError, RecursionError, AssertionError, NameError, UnboundLocalError, _Watchdog)
+
+
+def internal_cause(e: BaseException, meson_exc: T.Any) -> str:
+    """the type of the Python exception behind a rejection when it was not a deliberate check: either the exception is itself of
+    such a type, or it is a MesonException that a blanket handler made out of one (same message text, original as __context__;
+    a deliberate `except KeyError: raise MesonException('Unknown option ...')` has a message of its own and is not counted)."""
+    if isinstance(e, INTERNAL) and not isinstance(e, meson_exc):
+        return type(e).__name__
+    ctx = e.__cause__ or e.__context__
+    if ctx is not None and isinstance(ctx, INTERNAL) and not isinstance(ctx, meson_exc) and str(ctx) == str(e):
+        return type(ctx).__name__
+    return ''
+
+
+def guarded(fn: T.Callable[[], T.Dict[str, T.Any]]) -> T.Dict[str, T.Any]:
+    """run one implementation call under a watchdog (a mutant or a cyclic input must not hang the check)."""
+    old = signal.signal(signal.SIGALRM, _alarm)
+    signal.alarm(WATCHDOG_S)
+    try:
+        return fn()
+    finally:
+        signal.alarm(0)
+        signal.signal(signal.SIGALRM, old)
+
+
+def stmt_tag(s: T.Dict[str, T.Any]) -> str:
+    """normalised description of a statement for signatures: kind, function, literal name."""
+    name = s['pos'][0]['s'] if s['pos'] and s['pos'][0]['k'] == 'str' else '?'
+    return f"{s['k']}:{s['f']}({name!r})"
+
+
+def has_cycle(tab: T.List[T.Dict[str, T.Any]]) -> bool:
+    nxt = {o['name']: o['dep']['s'] for o in tab if o['dep']['f'] == 'name'}
+    for start in nxt:
+        seen, x = set(), start
+        while x in nxt and x not in seen:
+            seen.add(x)
+            x = nxt[x]
+        if x in seen:
+            return True
+    return False
+
+
 def run_file(text: str, start: T.Dict[int, int]) -> T.Dict[str, T.Any]:
     """process one option file with the real OptionInterpreter: accepted?, failing statement, declared options."""
     im = _Impl.get()
@@ -295,7 +351,7 @@ def run_file(text: str, start: T.Dict[int, int]) -> T.Dict[str, T.Any]:
         f.write(text)
     store = im.mo.OptionStore(False)
     interp = im.oi.OptionInterpreter(store, '')
-    out: T.Dict[str, T.Any] = {'acc': True, 'at': 0, 'opts': [], 'alien': ''}
+    out: T.Dict[str, T.Any] = {'acc': True, 'at': 0, 'opts': [], 'alien': '', 'internal': ''}
     try:
         interp.process(im.path)
         out['opts'] = [project_opt(im.mo, o) for o in interp.options.values()]
@@ -303,6 +359,7 @@ def run_file(text: str, start: T.Dict[int, int]) -> T.Dict[str, T.Any]:
         out['acc'] = False
         ln = getattr(e, 'lineno', None)
         out['at'] = start.get(ln, -1) if isinstance(ln, int) else -1
+        out['internal'] = internal_cause(e, im.ml.MesonException)
     except Exception as e:  # not a clean rejection
         out['acc'] = False
         out['at'] = -1
@@ -391,9 +448,12 @@ def run_cmd(tab: T.List[T.Dict[str, T.Any]], cl: T.List[T.Dict[str, T.Any]], rnd
         cmd = {OK.from_string(a['n']): raw_text(a['r']) for a in cl}
         try:
             store.initialize_from_top_level_project_call({}, cmd, {})
-        except im.ml.MesonException:
+        except im.ml.MesonException as e:
             out['raised'] = True
             out['vals'] = novals
+            ic = internal_cause(e, im.ml.MesonException)
+            if ic:
+                out['alien'] = ic + ': converted into a MesonException'
             return out
         out['vals'] = [project_value(store.get_value_for(OK(o['name'], ''))) for o in tab]
         out['notes'] = [n for n in (parse_note(m) for m in im.notes) if n is not None]
@@ -418,9 +478,11 @@ def _w_files(args: T.Tuple[T.List[T.Tuple[str, T.List[T.Dict[str, T.Any]]]], int
     for cid, stmts in items:
         rnd = random.Random(f'{sd}/{cid}')
         text, start = render_file(stmts, rnd)
-        obs = run_file(text, start)
+        obs = guarded(lambda: run_file(text, start))
+        tag = stmt_tag(stmts[obs['at'] - 1]) if 0 < obs['at'] <= len(stmts) else '?'
+        alien = obs['alien'] or (obs['internal'] + ': converted into a MesonException' if obs['internal'] else '')
         out.append({'id': cid, 'kind': 'file', 'view': 'full', 'f': stmts, 'acc': obs['acc'], 'at': obs['at'],
-                    'opts': obs['opts'], 'alien': obs['alien'], 'text': text})
+                    'opts': obs['opts'], 'alien': alien, 'tag': tag, 'text': text})
     return out
 
 
@@ -429,9 +491,10 @@ def _w_cmds(args: T.Tuple[T.List[T.Tuple[str, T.List[T.Dict[str, T.Any]], T.List
     out = []
     for cid, tab, cl in items:
         rnd = random.Random(f'{sd}/{cid}')
-        obs = run_cmd(tab, cl, rnd)
+        obs = guarded(lambda: run_cmd(tab, cl, rnd))
         out.append({'id': cid, 'kind': 'cmd', 'view': 'full', 'tab': tab, 'cl': cl, 'otab': obs['otab'],
                     'raised': obs['raised'], 'vals': obs['vals'], 'notes': obs['notes'], 'alien': obs['alien'],
+                    'tag': 'replacement-cycle' if has_cycle(tab) else 'no-cycle',
                     'text': obs['text'], 'args': obs['args']})
     return out
 
@@ -810,6 +873,7 @@ def _cli(job: T.Dict[str, T.Any]) -> T.Dict[str, T.Any]:
 
 def cli_case(job: T.Dict[str, T.Any], res: T.Dict[str, T.Any]) -> T.Dict[str, T.Any]:
     extra = {'alien': res['alien'], 'text': res['text'], 'args': res['args'], 'stdout': res['stdout'], 'fname': res['fname'],
+             'tag': ('replacement-cycle' if has_cycle(job['tab']) else 'no-cycle') if job['kind'] == 'cmd' else '?',
              'getopt': job.get('getopt', []), 'observe': job.get('observe', '')}
     if job['kind'] == 'file':
         return dict(id=job['id'], kind='file', view='intro', f=job['f'], acc=res['acc'], at=res['at'], opts=res['user'], **extra)
@@ -915,7 +979,7 @@ def judge(cases: T.List[T.Dict[str, T.Any]], label: str, surface0: str, chunk: i
     for c in cases:
         if c.get('alien'):
             surface = surface_of(c)
-            out.viol.append((f"{surface}:UnexpectedException:{c['kind']}:{c['alien'].split(':')[0]}",
+            out.viol.append((f"{surface}:UnexpectedException:{c['kind']}:{c['alien'].split(':')[0]}:{c.get('tag', '?')}",
                              {'case': {k: c.get(k) for k in c if k != 'stdout'}, 'surface': surface, 'stdout': c.get('stdout')}))
     return out
 
@@ -965,7 +1029,7 @@ def main(chk: Check) -> None:
                 'INVARIANT BatchEqualsDeclarative\nINVARIANT IncrementalEqualsBatch\nINVARIANT DefaultsValid\nINVARIANT NamesValid\n'
                 'INVARIANT OrderIndep\nINVARIANT Local\nINVARIANT TypeOK\nPROPERTY Monotone\nCHECK_DEADLOCK FALSE\n'
                 'POSTCONDITION EmitAlphabet\n' % (maxlen, depth))
-    cfg_dep = ('SPECIFICATION Spec\nCONSTANT Pairs = "%s"\nCONSTANT Pool = "%s"\nINVARIANT ValuesInDomain\nINVARIANT ProtectedEqualsDeclarative\n'
+    cfg_dep = ('SPECIFICATION Spec\nCONSTANT Pairs = "%s"\nCONSTANT Pool = "%s"\nINVARIANT ValuesInDomain\nINVARIANT ProtectedEqualsDeclarative\nINVARIANT BothReadingsAllowed\n'
                'INVARIANT OrderOfAssignmentsIrrelevant\nINVARIANT NaiveDiffersOnlyWhenOvertaken\nINVARIANT RejectionOrderIrrelevant\n'
                'INVARIANT SingleLaws\nINVARIANT OnlyChainTouched\nCHECK_DEADLOCK FALSE\nPOSTCONDITION EmitCases\n'
                % (('name', 'small') if quick else ('all', 'full')))
@@ -1035,6 +1099,9 @@ def main(chk: Check) -> None:
         for how in ('get_option', 'introspect'):
             jobs.append({'id': f'CLI:module-{how}', 'kind': 'cmd', 'tab': mtab, 'cl': [{'n': 'o8', 'r': rword('/foo')}],
                          'seed': f'{chk.seed}/cli-mod', 'getopt': ['python.platlibdir', 'o8'], 'observe': how})
+        # totality: a cycle of replacements must be rejected like any other invalid assignment
+        ctab = [mkopt('a', 'string', [], NOBOUND, NOBOUND, '', dep('name', s='b')), mkopt('b', 'string', [], NOBOUND, NOBOUND, '', dep('name', s='a'))]
+        jobs.append({'id': 'CLI:cycle', 'kind': 'cmd', 'tab': ctab, 'cl': [{'n': 'a', 'r': rword('x')}], 'seed': f'{chk.seed}/cli-cycle'})
         with ThreadPoolExecutor(max_workers=min(common.NCPU, 8)) as tex:
             futs = [tex.submit(_cli, job) for job in jobs]
             ritems = [(f'B:f{j}', rand_file(random.Random(f'{chk.seed}/Bf{j}'))) for j in range(n_rand_files)]
@@ -1096,12 +1163,18 @@ def main(chk: Check) -> None:
         'integer option without `value`: the documentation gives no default; acceptance with any integer inside min/max and rejection are both allowed',
         'a name declared twice in one file: not documented (the tool warns "already exists"); rejection at the repeated declaration or keeping any of '
         'the clashing declarations is allowed',
-        'not generated (documentation silent): empty option names and descriptions, f-strings and multi-line strings, dictionary keys that are not '
+        'not generated (documentation silent): f-strings and multi-line strings, dictionary keys that are not '
         'string literals but evaluate to strings, duplicate keyword arguments, duplicate dictionary keys, string values for array options '
         '(deprecated "[...]" form), boolean strings other than true/false, integer texts outside -99..99',
-        'not generated: `deprecated:` naming the option itself or a cycle of replacements (the tool recurses without bound), a replacement that is a '
-        'module option such as python.platlibdir, subproject-qualified assignments (-Dsub:old=v), several deprecated options forwarding different '
-        'values to one replacement',
+        'when one command sets a deprecated option that forwards to `new` and also sets `new` explicitly, the documentation does not say which of '
+        'the two user assignments wins: the explicit value and the forwarded value are both allowed (nothing else); the specification proves '
+        'that the set has at most these two values and that a reading in which the explicit value always wins is order independent',
+        'totality: an invalid option file / assignment must be rejected with a MesonException - an exception of a type that is never input '
+        'validation (AttributeError, TypeError, KeyError, IndexError, RecursionError, AssertionError, ...), raised directly or converted by a blanket '
+        'handler (the MesonException carries the same text and has it as __context__), is reported; ValueError (int() of a text) is not counted; every implementation '
+        'call runs under a 60 s watchdog.  The empty option name and replacement cycles (a -> b -> a, a -> a) are generated for this purpose',
+        'not generated: empty descriptions, subproject-qualified assignments (-Dsub:old=v), several deprecated options forwarding different values '
+        'to one replacement; module-option replacement only as the documented o8 -> python.platlibdir example',
         'comma-separated / bracketed command-line texts are only given where every option they reach is an array; words never contain "," or "["',
         'deprecation notices are compared as a set of (kind, option, value, new value) parsed from the four message forms pinned by '
         'test cases/common/247 deprecated option/test.json; other message texts are not compared',
